@@ -62,6 +62,10 @@ type propFn func(r *Run)
 var props = map[string]propFn{}
 
 func main() {
+	if len(os.Args) == 4 && os.Args[1] == "--c12-deepnest" {
+		c12DeepNestChild(os.Args[2], os.Args[3]) // child process of the C12 deep-nesting probe (c12.go)
+		return
+	}
 	var (
 		id     = flag.String("prop", "", "property id")
 		tier   = flag.String("tier", "quick", "quick|thorough")
